@@ -409,7 +409,7 @@ class _ServerRun:
                         self.drain(p)
                     self.it()
                 for p in pend:
-                    if self.buffered(p.sidx):
+                    if self.buffered(p.sidx) and self.obs.socks[p.sidx] in self.poller._write:
                         # the kernel did not take the rest of the data within the bound: nothing can be concluded
                         self.inconclusive = True
                     elif self.close_ignored is None:
@@ -467,6 +467,8 @@ class _ServerRun:
                 pass
             t['p_map'] = len([x for x in poller._map if x not in ok])
         t['listener_registered'] = self.listener in poller._read
+        # sockets for which the server still holds data AND waits for the poller to report writability
+        t['flushing'] = set(i for i, x in enumerate(self.obs.socks) if srv._buffers.get(x) and x in poller._write)
         return t
 
     def cleanup(self):
@@ -524,7 +526,7 @@ class _ServerRun:
             if nd == 1 and kinds[-1] != 'disconnect':
                 return 'event-after-disconnect', where
             if nd == 0:
-                if self.buffered(sidx):
+                if sidx in self.tables['flushing']:
                     # The server still holds data for this socket that the kernel did not take within the bound
                     # (zero window / retransmission timers of a peer with a tiny receive buffer are wall-clock
                     # matters): its deferred close is legitimately pending, nothing can be concluded.
@@ -724,7 +726,7 @@ class _ClientRun:
                         _quickack(self.peer)
                         self.it()
                     if self.outstanding() > 0:
-                        if self.cli._buffer:
+                        if self.flushing():
                             self.inconclusive = True
                         else:
                             self.close_ignored = True
@@ -748,9 +750,14 @@ class _ClientRun:
                     self.it()
             except _Escaped:
                 pass
+            self.still_flushing = self.flushing()
         finally:
             self.cleanup()
         return self
+
+    def flushing(self):
+        """The client still holds data AND waits for the poller to report writability of its socket."""
+        return bool(self.cli._buffer) and self.poller.isWriting(self.cli._sock)
 
     def cleanup(self):
         for s in self.accepted + [self.lsock]:
@@ -783,7 +790,7 @@ class _ClientRun:
                 return 'client-disconnected-twice', '%s events=%s: disconnected without a matching connected' % (tag, _abbr(ev))
             if bal > 1:
                 return 'client-connected-twice', '%s events=%s' % (tag, _abbr(ev))
-        if bal != 0 and self.cli._buffer:
+        if bal != 0 and self.still_flushing:
             self.inconclusive = True      # deferred close still waiting for the kernel to take the data
             return None
         if bal != 0:
@@ -807,7 +814,7 @@ class C12(Prop):
                    'nevertheless only waits on conditions (bounded iteration counts), never on time',
                    'chunking of reads, error events and which prefix of the data is delivered before a reset are not asserted',
                    'a connection reset by the peer before the server could accept it need not be announced at all')
-    budget = {'quick': (450, 4), 'thorough': (12000, 16)}
+    budget = {'quick': (450, 4), 'thorough': (10000, 16)}
 
     def setup(self):
         driver.quiet_process()
